@@ -47,7 +47,8 @@ def design_check(ctx, label, module, constants, invariants=(), properties=(),
 
 def tlc_only(label, module, constants, invariants=(), properties=(), view='View',
              constraints=(), action_constraints=(), workers=None, emit=False, simulate=None,
-             depth=None, timeout=900, seed=None, heap='8g', deadlock=False, spec=None):
+             depth=None, timeout=900, seed=None, heap='8g', deadlock=False, spec=None,
+             budget_ok=False):
     """Thread-safe half of design_check: just run TLC (no ctx access)."""
     cons = list(constraints)
     acs = list(action_constraints)
@@ -59,7 +60,8 @@ def tlc_only(label, module, constants, invariants=(), properties=(), view='View'
                        view=view, constraints=cons, action_constraints=acs, spec=spec,
                        deadlock=deadlock)
     return tlc.run(module, cfg, workers=workers, simulate=simulate, depth=depth,
-                   seed=(seed if simulate is not None else None), timeout=timeout, heap=heap)
+                   seed=(seed if simulate is not None else None), timeout=timeout, heap=heap,
+                   budget_ok=budget_ok and not emit)
 
 
 def account(ctx, label, module, constants, res, emit=False, simulate=False,
